@@ -1381,6 +1381,101 @@ def gen_ambient(item="G9.ambient_state"):
     return "\n".join(out)
 
 
+# ------------------------------------------------------------------------------------------ G10: argument validation
+V_SUBJECT = {"wave_in": 0, "mask": 1, "wave_out": 2}
+V_COUNT_ERR = {"WrongNumberOfInputChannels": 0, "WrongNumberOfMaskChannels": 1, "WrongNumberOfOutputChannels": 3}
+V_EACH_ERR = {"InsufficientInputBufferSize": 2, "InsufficientOutputBufferSize": 4}
+V_MIN = {"min_input_len": 0, "min_output_len": 1}
+SEVEN = [("FastFixedIn", "asynchro_fast.rs"), ("FastFixedOut", "asynchro_fast.rs"), ("SincFixedIn", "asynchro_sinc.rs"),
+         ("SincFixedOut", "asynchro_sinc.rs"), ("FftFixedIn", "synchro.rs"), ("FftFixedOut", "synchro.rs"),
+         ("FftFixedInOut", "synchro.rs")]
+
+
+def gen_validation(item="G10.validation"):
+    """lib.rs::validate_buffers as a decision list (in source order), and for each of the seven process_into_buffer bodies:
+    the mask prologue, the two minimum lengths handed to validate_buffers, and the number of writes to `self` (other than the
+    channel mask) that precede the validation."""
+    lib = strip_comments(read("lib.rs"))
+    _, body = fn_body(lib, "validate_buffers", item)
+    body = body.strip()
+    steps = []
+    pos = 0
+    ws = r"\s*"
+    count_re = re.compile(r"if" + ws + r"(\w+)\.len\(\)" + ws + r"!=" + ws + r"channels" + ws + r"\{" + ws +
+                          r"return" + ws + r"Err\(ResampleError::(\w+)" + ws + r"\{" + ws + r"expected:" + ws + r"channels," + ws +
+                          r"actual:" + ws + r"(\w+)\.len\(\)," + ws + r"\}\);" + ws + r"\}")
+    each_re = re.compile(r"for" + ws + r"\(chan," + ws + r"(\w+)\)" + ws + r"in" + ws + r"(\w+)" + ws + r"\.iter(?:_mut)?\(\)" + ws +
+                         r"\.enumerate\(\)" + ws + r"\.filter\(\|\(chan," + ws + r"_\)\|" + ws + r"mask\[\*chan\]\)" + ws + r"\{" + ws +
+                         r"let" + ws + r"actual_len" + ws + r"=" + ws + r"(\w+)\.as_(?:ref|mut)\(\)\.len\(\);" + ws +
+                         r"if" + ws + r"actual_len" + ws + r"<" + ws + r"(\w+)" + ws + r"\{" + ws +
+                         r"return" + ws + r"Err\(ResampleError::(\w+)" + ws + r"\{" + ws + r"channel:" + ws + r"chan," + ws +
+                         r"expected:" + ws + r"(\w+)," + ws + r"actual:" + ws + r"actual_len," + ws + r"\}\);" + ws + r"\}" + ws + r"\}")
+    while True:
+        rest = body[pos:].lstrip()
+        pos = len(body) - len(rest)
+        if rest == "Ok(())":
+            break
+        m = count_re.match(rest)
+        if m:
+            subj, err, subj2 = m.groups()
+            if subj != subj2 or subj not in V_SUBJECT or err not in V_COUNT_ERR:
+                raise TranslateError(item, f"validate_buffers: unexpected channel-count check {m.group(0)[:80]!r}")
+            steps.append((0, V_SUBJECT[subj], V_COUNT_ERR[err], 0, f"{subj}.len() != channels -> {err}"))
+            pos += m.end()
+            continue
+        m = each_re.match(rest)
+        if m:
+            var, subj, var2, mn, err, mn2 = m.groups()
+            if var != var2 or mn != mn2 or subj not in V_SUBJECT or err not in V_EACH_ERR or mn not in V_MIN:
+                raise TranslateError(item, f"validate_buffers: unexpected per-channel check {m.group(0)[:80]!r}")
+            steps.append((1, V_SUBJECT[subj], V_EACH_ERR[err], V_MIN[mn], f"active {subj}[chan].len() < {mn} -> {err}"))
+            pos += m.end()
+            continue
+        raise TranslateError(item, f"validate_buffers: statement outside the decision-list grammar: {rest[:80]!r}")
+    out = ["/-- `lib.rs::validate_buffers` as a decision list in source order: (kind 0 = channel count / 1 = every ACTIVE channel's",
+           "    length, subject 0 = wave_in / 1 = mask / 2 = wave_out, error 0 WrongNumberOfInputChannels / 1 WrongNumberOfMaskChannels /",
+           "    2 InsufficientInputBufferSize / 3 WrongNumberOfOutputChannels / 4 InsufficientOutputBufferSize, minimum 0 = min_input_len /",
+           "    1 = min_output_len); error payloads (expected / actual / channel) are checked on the text -/",
+           "def validateSteps : List (Nat × Nat × Nat × Nat) := ["]
+    out.append(",\n".join(f"  ({a}, {b}, {c}, {d})  /- {doc} -/" for a, b, c, d, doc in steps) + "]")
+    out.append("")
+    # the seven prologues
+    rows = []
+    prologue = re.compile(
+        r"if" + ws + r"let" + ws + r"Some\(mask\)" + ws + r"=" + ws + r"active_channels_mask" + ws + r"\{" + ws +
+        r"if" + ws + r"mask\.len\(\)" + ws + r"!=" + ws + r"self\.nbr_channels" + ws + r"\{" + ws +
+        r"return" + ws + r"Err\(ResampleError::WrongNumberOfMaskChannels" + ws + r"\{" + ws + r"expected:" + ws + r"self\.nbr_channels," + ws +
+        r"actual:" + ws + r"mask\.len\(\)," + ws + r"\}\);" + ws + r"\}" + ws +
+        r"self\.channel_mask\.copy_from_slice\(mask\);" + ws + r"\}" + ws + r"else" + ws + r"\{" + ws +
+        r"update_mask_from_buffers\(&mut" + ws + r"self\.channel_mask\);" + ws + r"\};?")
+    call = re.compile(r"validate_buffers\(" + ws + r"wave_in," + ws + r"wave_out," + ws + r"&self\.channel_mask," + ws +
+                      r"self\.nbr_channels," + ws + r"([\w.]+)," + ws + r"([\w.]+),?" + ws + r"\)\?;")
+    write = re.compile(r"\bself\s*\.\s*(\w+)(?:\s*\[[^\]]*\])*\s*(?:=(?!=)|\+=|-=|\*=|/=)|"
+                       r"\bself\s*\.\s*(\w+)[^;{}]*?\.(?:iter_mut|copy_within|copy_from_slice|resize|push|fill|clear|swap|truncate|extend\w*)\s*\(")
+    for tid, (T, file) in enumerate(SEVEN):
+        src = strip_comments(read(file))
+        pb = strip_log_macros(impl_method_body(src, T, "process_into_buffer", item))
+        mp = prologue.search(pb)
+        if not mp or pb[:mp.start()].strip():
+            raise TranslateError(item, f"{T}::process_into_buffer does not start with the mask prologue (length check before the copy)")
+        mc = call.search(pb)
+        if not mc:
+            raise TranslateError(item, f"{T}::process_into_buffer: validate_buffers(wave_in, wave_out, &self.channel_mask, self.nbr_channels, .., ..)? not found")
+        before = pb[mp.end():mc.start()]
+        writes = [w for w in (m.group(1) or m.group(2) for m in write.finditer(before)) if w != "channel_mask"]
+        # mutable borrows of a field (mem::replace, mem::swap, helper calls) and calls of methods that are not known getters
+        writes += ["&mut " + w for w in re.findall(r"&mut\s+self\s*\.\s*(\w+)", before) if w != "channel_mask"]
+        writes += [w + "()" for w in re.findall(r"\bself\s*\.\s*(\w+)\s*\(", before)
+                   if w not in ("calc_needed_len", "output_frames_next", "output_frames_max", "input_frames_next",
+                                "input_frames_max", "nbr_channels", "output_delay")]
+        rows.append((tid, T, mc.group(1), mc.group(2), len(writes), writes))
+    out.append("/-- per type: (type id, minimum input length, minimum output length handed to validate_buffers, number of writes to")
+    out.append("    `self` other than the channel mask BEFORE the validation) -/")
+    out.append("def validateCalls : List (Nat × String × String × Nat) := [")
+    out.append(",\n".join(f'  ({tid}, "{a}", "{b}", {n})  /- {T}{(" writes: " + " ".join(w)) if w else ""} -/' for tid, T, a, b, n, w in rows) + "]")
+    return "\n".join(out)
+
+
 def generate():
     parts = [HEADER]
     parts.append("namespace Fast")
@@ -1412,6 +1507,9 @@ def generate():
     parts.append("namespace Effects")
     parts.append(gen_effects())
     parts.append("end Effects\n")
+    parts.append("namespace Validation")
+    parts.append(gen_validation())
+    parts.append("end Validation\n")
     parts.append("namespace Ambient")
     parts.append(gen_ambient())
     parts.append("end Ambient\n")
